@@ -52,6 +52,11 @@ func genCase() *rapid.Generator[Case] {
 				op.ID = rapid.SampledFrom(idAlpha).Draw(t, "id")
 				op.A = rapid.SampledFrom(fieldAlpha).Draw(t, "a")
 				op.B = rapid.SampledFrom(fieldAlpha).Draw(t, "b")
+				if rapid.Bool().Draw(t, "race") {
+					op.Then = "race"
+					op.A2 = rapid.SampledFrom(fieldAlpha).Draw(t, "a2")
+					op.B2 = rapid.SampledFrom(fieldAlpha).Draw(t, "b2")
+				}
 			case "create", "update":
 				op.ID = rapid.SampledFrom(idAlpha).Draw(t, "id")
 				op.A = rapid.SampledFrom(fieldAlpha).Draw(t, "a")
